@@ -15,6 +15,9 @@ def C(pkg, quick, thorough, technique, note, level_text=EXPL, **kw):
     return d
 
 CHECKS = {
+    "C09": C("c09", dict(checks=2000, shards=2, timeout=300), dict(checks=40000, shards=16, timeout=3000),
+             "property-based testing (rapid): generated values, reservation/write orders and map layouts round-tripped through the encoding containers and compared with list/multiset reference models",
+             "Trusted: the multiset model of the hash map (entries of one ID compared as a multiset, FindFirst = first entry written single-threaded); domain = tags < 2^tagBits, fixed widths >= Uint64Length(v)."),
     "C39": C("c39", dict(checks=5000, shards=2, timeout=300), dict(checks=100000, shards=16, timeout=1800),
              "property-based testing (rapid): generated operation sequences on b6.Tags compared step by step with an ordered-list reference model; shrunk failing case saved as JSON replay",
              "Trusted: the ordered-list model in harness/c39; keys are distinct and non-empty as the property states; values are string expressions."),
